@@ -445,6 +445,18 @@ func classify(c *C13Case) (classes []string, nontrivial bool) {
 			}
 		}
 		for k := range rmAt {
+			if strings.HasPrefix(k, "-") {
+				// the item to remove has a key that itself starts with a dash (its marker is "--...")
+				if present(k) {
+					nontrivial = true
+					seen["dash_key_removal_present"] = true
+					if sib := strings.TrimLeft(k, "-"); (sib != "" && present(sib)) || (k[1:] != "" && present(k[1:])) {
+						seen["dash_key_removal_sibling_present"] = true
+					}
+				} else {
+					seen["dash_key_removal_absent"] = true
+				}
+			}
 			if _, both := setAt[k]; both {
 				continue
 			}
@@ -775,6 +787,20 @@ func TestExh_C13(t *testing.T) {
 			}
 		}
 	}
+	// items whose own key starts with a dash, next to their dash-less siblings: exactly the
+	// marked item is removed
+	for _, fam := range []string{"ann", "env"} {
+		for i := range dashSweep {
+			c := dashSweepCase(fam, i)
+			o := runC13(c)
+			o.Classes = append([]string{"sweep"}, o.Classes...)
+			r.Record(c, o)
+			if o.Fail != "" {
+				t.Fatalf("C13: %s", o.Fail)
+			}
+			n++
+		}
+	}
 	r.SetExtra("sweep_cases", n)
 	r.SetExtra("exhaustive", false)
 }
@@ -828,4 +854,56 @@ func sweepCase(fam string, present bool, pattern string) C13Case {
 		}
 	}
 	return C13Case{Spec: s, Adj: a, Reps: 200}
+}
+
+// dashSweep: items present in the spec (by name), names to remove, optional set of "k1".
+var dashSweep = []struct {
+	have   []string
+	remove []string
+	set    bool
+}{
+	{have: []string{"k1", "-k1"}, remove: []string{"-k1"}},
+	{have: []string{"k1", "-k1", "--k1"}, remove: []string{"--k1"}},
+	{have: []string{"k1", "-k1", "--k1"}, remove: []string{"-k1", "k1"}},
+	{have: []string{"k1", "-k1"}, remove: []string{"-k1"}, set: true},
+	{have: []string{"-k1"}, remove: []string{"-k1"}, set: true},
+	{have: []string{"-", "k1"}, remove: []string{"-"}},
+	{have: []string{"k1"}, remove: []string{"-k1"}},
+	{have: []string{"k1", "-k1"}, remove: []string{"k1"}},
+}
+
+func dashSweepCase(fam string, i int) C13Case {
+	d := dashSweep[i]
+	s := rspec.Spec{
+		Version:     "1.1.0",
+		Process:     &rspec.Process{Cwd: "/", Env: []string{"HOME=/"}},
+		Annotations: map[string]string{"other": "o"},
+		Linux:       &rspec.Linux{},
+	}
+	a := Adj{}
+	for _, k := range d.have {
+		if fam == "ann" {
+			s.Annotations[k] = "old:" + k
+		} else {
+			s.Process.Env = append(s.Process.Env, k+"=old:"+k)
+		}
+	}
+	if fam == "ann" {
+		a.Annotations = map[string]string{}
+	}
+	if d.set {
+		if fam == "ann" {
+			a.Annotations["k1"] = "new"
+		} else {
+			a.Env = append(a.Env, KV{K: "k1", V: "new"})
+		}
+	}
+	for _, k := range d.remove {
+		if fam == "ann" {
+			a.Annotations["-"+k] = ""
+		} else {
+			a.Env = append(a.Env, KV{K: "-" + k})
+		}
+	}
+	return C13Case{Spec: s, Adj: a, Reps: 32}
 }
